@@ -482,3 +482,11 @@ def run(ck):
                       ' [a string value written through a raw constructor is decoded differently by an XML parser]')
     c09.run(sh)
     ck.floor('R3.9', sh.count, 30, 'shared C09 R9.1 obligations on the three string writers')
+
+    # ---- R3.10 the .ui on disk is the one this run built (shared with C15) -----------------------------------------------------------------------
+    import rules.c15 as c15
+    ck.rule('R3.10', 'an edited constant reaches the .ui file: an existing file is kept only if its bytes equal the new output (shared with C15)')
+    s15 = _core.Shared(ck, 'R3.10', lambda r, k: (r == 'R15.4' and k.endswith('|skipped-only-if-same-bytes')) or (r == 'R15.5' and (k == 'ui-path-gets-form-xml' or k.startswith('buffer-starts-empty|'))), 'C15:',
+                       ' [the value a reader finds in the .ui is the value of the source as it is now, not as it was on an earlier run]')
+    c15.run(s15)
+    ck.floor('R3.10', s15.count, 3, 'shared C15 R15.4 / R15.5 obligations')
